@@ -21,8 +21,10 @@ package switchr
 
 //@ func Switch.ForwardByLabel
 //@   requires nonnil(f) && f.data != nil
+//@   modifies f.data[1:3]
 //@ func Switch.ForwardByPeer
 //@   requires nonnil(f) && f.data != nil
+//@   modifies f.data[1:3]
 
 // Label switching changes only TTL, flow flags and the switch block of a frame.
 //@ func Switch.handleFrame
